@@ -36,6 +36,7 @@ type Env struct {
 	inQuant  bool
 	bound    map[string]Val
 	invoked  map[string]invokedFn
+	visited  map[*ssa.Range]string // ghost state of range-over-map loops at this program point
 	qvals    []Val           // values of the enclosing quantifiers' bound variables (outermost first)
 	altBlock *ssa.BasicBlock // second program point tried for local names (the call site of before/after)
 	altIdx   int
@@ -53,6 +54,14 @@ func (e *Env) fail(format string, a ...interface{}) {
 
 func (tr *FnTrans) envAt(b *ssa.BasicBlock, idx int, heap, old *Heap) *Env {
 	e := &Env{tr: tr, vars: map[string]Val{}, heap: heap, oldHeap: old, block: b, idx: idx, quiet: true, own: true}
+	// ghost state is part of the program point the environment describes: a hypothesis that is
+	// instantiated again later must still speak about the state it was assumed in
+	if len(tr.rangeVisited) > 0 {
+		e.visited = map[*ssa.Range]string{}
+		for k, v := range tr.rangeVisited {
+			e.visited[k] = v
+		}
+	}
 	if tr.fn.Pkg != nil {
 		e.pkg = tr.fn.Pkg.Pkg
 	}
@@ -1250,6 +1259,26 @@ func (e *Env) callExpr(x *Expr) Val {
 			}
 		}
 		e.fail("%s(%s): only meaningful in the contract of a callee that declares `invokes %s`", x.S, x.A[0].S, x.A[0].S)
+	case "visited":
+		// visited(N, k): the range-over-map loop number N has already yielded key k
+		if len(x.A) != 2 || x.A[0].Op != "num" {
+			e.fail("visited(loop-number, key)")
+		}
+		n, _ := strconv.Atoi(x.A[0].S)
+		rg := tr.rangeOfLoop(n)
+		if rg == nil {
+			e.fail("visited(%d, _): loop %d is not a range over a map", n, n)
+		}
+		cur, ok := tr.rangeVisited[rg]
+		if e.visited != nil {
+			cur, ok = e.visited[rg]
+		}
+		if !ok {
+			e.fail("visited(%d, _): the loop has not been reached", n)
+		}
+		mt := rg.X.Type().Underlying().(*types.Map)
+		k := e.coerce(e.eval(x.A[1]), mt.Key())
+		return Val{T: fmt.Sprintf("(select %s %s)", cur, k.T), Ty: boolT}
 	case "distinct":
 		// distinct(a, b): two reference-like values (pointers, maps, channels, possibly of different
 		// static types) are not the same object
@@ -1289,7 +1318,7 @@ func (e *Env) callExpr(x *Expr) Val {
 		if k.Const != nil {
 			k = e.coerce(k, mt.Key())
 		}
-		domS := fmt.Sprintf("(Array %s Bool)", tr.smt.sortOf(mt.Key()))
+		domS := domSort(tr.smt.sortOf(mt.Key()))
 		return Val{T: fmt.Sprintf("(and (not (= %s nil)) (select (select %s %s) %s))", m.T, e.heap.lookup(domS), m.T, k.T), Ty: boolT}
 	case "nonnil":
 		v := e.eval(x.A[0])
